@@ -3,7 +3,7 @@
 import sys
 TY = {"u8": "u8", "u64": "u64", "z": "Z", "d": "D"}
 QUICK = [(0, 0), (1, 1), (2, 3)]
-THOROUGH = [(l, c) for l in range(0, 5) for c in (l, l + 2)] + [(6, 6)]
+THOROUGH = [(l, c) for l in range(0, 5) for c in (l, l + 2)] + [(5, 5), (5, 7), (6, 6)]
 def instances(tier):
     shapes = QUICK if tier == "quick" else THOROUGH
     out = []
